@@ -24,13 +24,10 @@ import cbor2  # noqa: E402
 # Defects of the unchanged code rediscovered by the oracle, reported to the coordinator, not (yet) listed
 # in known_findings.json.  Printed as PENDING-FINDING; they do not fail the run.
 PENDING_FINDINGS = {
-    'C19/asserts-forwarded-but-forwarding-failed':
-        'the status report of a bundle whose forwarding FAILED (no transmit route, CL not attached, fragmentation '
-        'infeasible) asserts "forwarded" next to "deleted": the receive routing step records the forward action '
-        'before anything is sent (Coq: C19_content_refuted)',
-    'C19/subject-timestamp-rewritten/creation-time-0-forwarded':
-        'a forwarded bundle whose creation time is 0 gets a fresh creation timestamp from _apply_primary; the status report '
-        'built afterwards names that timestamp, not the one the bundle arrived with (Coq: C19_subject_refuted)',
+    'C19/asserts-forwarded-but-nothing-sent/fragments-on-route-whose-cl-is-not-attached':
+        'residue of the defect fixed in cf814c0: the TX route matches, the bundle exceeds its MTU and the fragment step takes it '
+        'over, but the route names a CL that is not attached: every fragment fails in its own send_bundle ("no sender" escapes the '
+        'idle callback), nothing reaches a CL, and the status report still asserts "forwarded" (Coq: C19_content_refuted)',
 }
 
 NODE = 'dtn://n0/'
@@ -54,6 +51,8 @@ OUTCOMES = {
                                       extra_flags=B.FLAG_NO_FRAGMENT),
     'forward-no-tx-route': dict(rx=[['^dtn://dst/', 'forward']], tx=[], dest='dtn://dst/app'),
     'forward-cl-not-attached': dict(rx=[['^dtn://dst/', 'forward']], tx=[dict(pattern='^dtn://dst/', cl_type='absent')], dest='dtn://dst/app'),
+    'forward-fragmented-cl-not-attached': dict(rx=[['^dtn://dst/', 'forward']], tx=[dict(pattern='^dtn://dst/', mtu=270, cl_type='absent')],
+                                               dest='dtn://dst/app', extra=dict(payload_hex=BIG)),
     'forward-creation-time-0': dict(rx=[['^dtn://dst/', 'forward']], tx=[dict(pattern='^dtn://dst/', mtu=None)], dest='dtn://dst/app',
                                     extra=dict(time=0)),
     'forward-with-extension-block-number-2': dict(rx=[['^dtn://dst/', 'forward']], tx=[dict(pattern='^dtn://dst/', mtu=None)], dest='dtn://dst/app',
@@ -116,6 +115,18 @@ def grid_cases(quick):
 
 
 # ----------------------------------------------------------------------------- the oracle
+
+def fragments_without_cl(case, spec):
+    ''' The first TX route matching the destination has an MTU below the bundle size and names a CL that
+    is not attached (input class of the residual finding). '''
+    import re
+    dest = spec.get('dest') or 'dtn:none'
+    for item in case['tx_routes']:
+        if re.compile(item['pattern']).match(dest) is not None:
+            size = len(B.encode_bundle(B.spec_for_encode(spec)))
+            return item.get('cl_type', 'fake') != 'fake' and item.get('mtu') is not None and item['mtu'] < size
+    return False
+
 
 def oracle_c19(case, raw):
     ''' Property text + RFC 9171 6.1.1 over the observations.  :return: list of (signature, what). '''
@@ -188,7 +199,10 @@ def oracle_c19(case, raw):
                     bad.append(('C19/asserts-unrequested-status:' + name, where))
                 if item['asserted'] and not occurred[name]:
                     if name == 'forwarded':
-                        bad.append(('C19/asserts-forwarded-but-forwarding-failed', where + ' asserted %r, nothing handed to a CL' % (asserted,)))
+                        sig = 'C19/asserts-forwarded-but-forwarding-failed'
+                        if fragments_without_cl(case, spec):
+                            sig = 'C19/asserts-forwarded-but-nothing-sent/fragments-on-route-whose-cl-is-not-attached'
+                        bad.append((sig, where + ' asserted %r, nothing handed to a CL' % (asserted,)))
                     else:
                         bad.append(('C19/asserts-status-that-did-not-occur:' + name, where + ' asserted %r' % (asserted,)))
                 if item['asserted'] and (item['time'] is not None) != want_time:
@@ -352,7 +366,8 @@ def main():
     chk.coverage['status_reports_decoded'] = reports_seen
     chk.coverage['grid'] = dict(outcomes=sorted(OUTCOMES), report_to_kinds=sorted(REPORT_TO), flag_subsets=2 ** len(REQ_BITS))
     chk.coverage['refuted_or_partial_theorems'] = [
-        'C19_content_partial / C19_content_refuted  <->  C19/asserts-forwarded-but-forwarding-failed',
+        'C19_content_partial / C19_content_refuted  <->  C19/asserts-forwarded-but-nothing-sent/fragments-on-route-whose-cl-is-not-attached '
+        '(the general case C19/asserts-forwarded-but-forwarding-failed was fixed in cf814c0: C19_failed_forward_deleted_only)',
         'C19_only_if_and_content (subject guarded by creation time <> 0) / C19_subject_refuted  <->  C19/subject-timestamp-rewritten/creation-time-0-forwarded',
         'C19_emitted_if_partial / C19_emitted_if_refuted_no_route, _fragment: requested reception reports never sent (not demanded by the property text: "only if")',
     ]
